@@ -10,7 +10,7 @@ refinement theorems of `Props/C07.lean` hold on every `Arith` carrier, `Float` i
 Protocol of `Driver/Metrics.lean` (float64 bit patterns as decimal `UInt64`):
 
 ```
-gmetric <name> | x… | y… [| extra…]   ->  value | oob     (extra: `p`; `sigma…`; `w… | p`)
+gmetric <name> | x… | y… [| extra…]   ->  value | oob     (extra: `p`; `sigma…`; `w… | p`; mahalanobis: `vinv…` row-major)
 gcorr <name> | v…                      ->  value…
 ```
 `oob` = the translated kernel answered `none` (out-of-bounds load; `haversine`: the `ValueError`
@@ -70,6 +70,11 @@ def handleGenMetrics : Handler := fun toks =>
     | some parts =>
       match name, parts with
       | "minkowski", [x, y, [p]] => some (showOpt (minkowski (x.length + 1) x.toArray y.toArray p))
+      | "mahalanobis", [x, y, v] =>
+        let n := x.length
+        if v.length ≠ n * n then some "bad-op" else
+        let rows : Array (Array Float) := ((List.range n).map (fun i => ((v.drop (i * n)).take n).toArray)).toArray
+        some (showOpt (mahalanobis (2 * n + 2) x.toArray y.toArray rows))
       | "standardised_euclidean", [x, y, s] =>
         some (showOpt (standardised_euclidean (x.length + 1) x.toArray y.toArray s.toArray))
       | "weighted_minkowski", [x, y, w, [p]] =>
